@@ -303,12 +303,14 @@ class Transformer(NamedTuple):
         for stmt in tree.body:
             if not isinstance(stmt, astroid.Import):
                 continue
-            for name, _ in stmt.names:
-                if name == 'deal':
+            for name, alias in stmt.names:
+                if name == 'deal' and alias in (None, 'deal'):
                     return
 
         # We insert the import after the shebang, the module docstring,
-        # `__future__` imports and module imports.
+        # `__future__` imports and the module imports at the top of the file
+        # (an import below the first function would come too late
+        # for the decorators).
         # We don't skip `from` imports, though, because they can be multiline.
         line = 1
         if tree.doc_node is not None and tree.doc_node.end_lineno is not None:
@@ -317,10 +319,12 @@ class Transformer(NamedTuple):
             line = 2
         for stmt in tree.body:
             if isinstance(stmt, astroid.Import):
-                line = stmt.lineno + 1
-            if isinstance(stmt, astroid.ImportFrom):
+                line = (stmt.end_lineno or stmt.lineno) + 1
+            elif isinstance(stmt, astroid.ImportFrom):
                 if stmt.modname == '__future__':
-                    line = stmt.lineno + 1
+                    line = (stmt.end_lineno or stmt.lineno) + 1
+            else:
+                break
         yield InsertText(line=line, text='import deal')
 
     def _mutations_pure(self) -> Iterator[Mutation]:
